@@ -346,6 +346,15 @@ impl tokio::io::AsyncWrite for WebsocketConnectionRaw {
     }
 }
 
+/// Verification hooks (compiled only with `--cfg dropshot_verif`).
+#[cfg(dropshot_verif)]
+#[doc(hidden)]
+pub mod verif_hooks {
+    pub fn derive_accept_key(request_key: &[u8]) -> String {
+        super::derive_accept_key(request_key)
+    }
+}
+
 #[cfg(test)]
 mod tests {
     use crate::body::Body;
